@@ -421,10 +421,14 @@ class Interp:
                 if any(c_ is None for c_, _ in parts):
                     return None, []
                 return ast.BoolOp(op=ast.Or(), values=[c_ for c_, _ in parts]), []
-            if isinstance(p, ast.MatchSequence) and not any(isinstance(q, ast.MatchStar) for q in p.patterns):
-                conds = [ast.Compare(left=ast.Call(func=ast.Name(id="len", ctx=ast.Load()), args=[target], keywords=[]), ops=[ast.Eq()], comparators=[ast.Constant(value=len(p.patterns))])]
+            if isinstance(p, ast.MatchSequence) and (not any(isinstance(q, ast.MatchStar) for q in p.patterns) or (isinstance(p.patterns[-1], ast.MatchStar) and not any(isinstance(q, ast.MatchStar) for q in p.patterns[:-1]))):
+                star = isinstance(p.patterns[-1], ast.MatchStar) if p.patterns else False
+                fixed = p.patterns[:-1] if star else p.patterns
+                conds = [ast.Compare(left=ast.Call(func=ast.Name(id="len", ctx=ast.Load()), args=[target], keywords=[]), ops=[ast.GtE() if star else ast.Eq()], comparators=[ast.Constant(value=len(fixed))])]
                 binds = []
-                for i_, q in enumerate(p.patterns):
+                if star and p.patterns[-1].name:
+                    binds.append((p.patterns[-1].name, ast.Call(func=ast.Name(id="list", ctx=ast.Load()), args=[ast.Subscript(value=target, slice=ast.Slice(lower=ast.Constant(value=len(fixed)), upper=None, step=None), ctx=ast.Load())], keywords=[])))
+                for i_, q in enumerate(fixed):
                     c_, b_ = pat(q, ast.Subscript(value=target, slice=ast.Constant(value=i_), ctx=ast.Load()))
                     if c_ is not None:
                         conds.append(c_)
